@@ -23,4 +23,22 @@ PROPS = {
         'assumptions': ['strings.IndexAny/HasPrefix behave as index_any/has_prefix of Base/Bytes.v'],
         'explanation': 'Theorems for all byte strings: the literal lexer state machine terminates within length+3 steps and equals the structural lexer; Parse equals an independent split-based reference parser (positions included); fails exactly on an empty/unterminated identifier; render(tree)+<=1 delimiter = input; spans; grouping; token discipline. Tie: VerifLex token streams and Parse trees vs the model on all strings <= 6 over {$ , _ = a} and random strings; property oracle on the implementation up to length 8 (quick) / 10 (thorough); goroutine count.',
     },
+    'C16': {
+        'property_files': ['Properties/C16.v'],
+        'targets': ['Properties/C16.vo', 'B64/B64Cases.vo'],
+        'trusted': ['modelled: hash/base64le one-shot API (NewEncoding decode map, Encode, EncodedLen, Decode with assemble64/assemble32 fast paths and decodeQuantum, DecodedLen); Go uint shifts/masks kept literally',
+                    'alphabets of hash.LittleEndianEncoding and bcrypt.Encoding are read off their behaviour by the generator and tied by Tie_consts'],
+        'assumptions': ['documented preconditions of NewEncoding/WithPadding (64 distinct symbols, no CR/LF, padding not in the alphabet) are hypotheses (enc_ok/enc_wf)',
+                        'strconv.IntSize >= 64 (amd64): the 8-symbol fast path is enabled'],
+        'explanation': 'Theorems for every byte string / text and every encoding: Encode = bit-level definition; EncodedLen; Decode inverts Encode also with CR/LF interspersed; fast paths = quantum path; no panic; an accepted text re-encodes to itself (strict: exactly; lenient: up to unused bits); corrupt offset in range and exact for a foreign byte. Tie: EncodeToString/DecodeString (bytes and corrupt offset) vs the model on exhaustive 1-/2-byte inputs, sampled 3-byte groups, all short texts over a class alphabet, random strings with single edits; alphabets by Tie_consts.',
+    },
+    'C10': {
+        'property_files': ['Properties/C10.v'],
+        'targets': ['Properties/C10.vo', 'Codec/Codec.vo', 'Codec/Class.vo'],
+        'trusted': ['modelled: hash/typeinfo.go (tag grammar, embedding, shadowing, normalize), marshal.go, unmarshal.go on descriptors of Go struct types; reflect, strconv (ParseInt/ParseUint/Format* re-modelled in Codec/Strconv.v) and user (Un)MarshalText code are modelled/abstract',
+                    'the descriptor of every struct type is produced by the harness from reflect (structDesc)'],
+        'assumptions': ['reflect.Value.CanInterface/CanSet hold for promoted exported fields (true for every generated and shipped shape)'],
+        'explanation': 'Model of the whole codec validated against Marshal/Unmarshal on generated reflect.StructOf types (wild and in-class), hand-written shapes and the shipped structs (string, value and projected error compared). Proved: integer text round trip for all bases/bit sizes; shipped layouts tied and in the class. The class round-trip theorem (C10_full_statement) is stated and validated by computation on every in-class case of the run; its proof is in progress.',
+        'level_text': 'proof (partial): the unbounded class round-trip theorem is stated (C10_full_statement) and tested on every generated in-class case; proved so far are the integer-text round trips and the layout ties; the correspondence ties the full codec model to the implementation',
+    },
 }
